@@ -451,6 +451,7 @@ def main(argv=None):
             "known_findings": [f.get("id") for f in kf],
             "differential": differential,
             "assumption_scan": assumption_scan(entry, args.prop),
+            "auto_inlined_private_helpers": sorted(set(c[len("auto-inline "):] for r in results for c in r["covered"] if c.startswith("auto-inline "))),
             "bounded_standins": entry.get("bounded_standins", []),
             "bounded_standin_runs": [{"name": r.get("name"), "bound": r.get("bound"), "evaluations": r.get("evaluations"),
                                       "failures": len(r.get("failures") or [])} for r in standin_results],
